@@ -50,5 +50,13 @@ def run(res, replay=None):
                               ({'kind': 'dirac', 'psi': 0.5, 'c': 1.0, 'scale_time': False}, {'kind': 'kingman'})):
             orc.run_oracle(res, 'identities', [{'spec': dict(base, model=first), 'second_order_reads': 'cov'},
                                                {'spec': dict(base, model=second), 'second_order_reads': 'cov'}], chunk=2)
+    if not replay:
+        # designed: multiple-merger models with the sample SPLIT over two demes (the merger rates of a deme depend on the lineages of THAT
+        # deme; both representations must agree on heights, lengths and the spectrum)
+        mg = {'a>b': {'0.0': 0.5}, 'b>a': {'0.0': 1.0}}
+        orc.run_oracle(res, 'identities', [
+            {'spec': {'n_items': [['a', 2], ['b', 2]], 'model': mdl, 'pop_sizes': {'a': {'0.0': 1.0}, 'b': {'0.0': 0.5}}, 'migration_rates': mg,
+                      'end_time': 6.0, 'designed': 'mm_two_demes'}, 'second_order_reads': 'cov'}
+            for mdl in ({'kind': 'beta', 'alpha': 1.5, 'scale_time': False}, {'kind': 'dirac', 'psi': 0.5, 'c': 1.0, 'scale_time': False})], chunk=1)
     space.run_stream(res, 'C11', [s_ for s_ in specs if not s_.get('designed')][: (5 if res.tier == 'quick' else 30)])
     res.extra['input_distribution'] = {'n': sorted(gen.effective_n(s) for s in specs)}
